@@ -98,7 +98,9 @@ def gen_resp_plan(r, token: bytes, method="GET", opts=None):
             lines.append(k + b":\t" + v + b"\t ")
     plan = {
         "status": status,
-        "reason": r.choice([REASONS.get(status, b"Whatever"), b"Fine By Me", b"ok"]),
+        # obs-text (bytes >= 0x80) is legal in a reason phrase
+        "reason": r.choice([REASONS.get(status, b"Whatever"), b"Fine By Me", b"ok", b"ok",
+                            b"n\xe9cessaire", b"\xff\xfe fine"]),
         "headers": hdrs,
         "header_lines": lines,
         "framing": framing,
